@@ -39,6 +39,18 @@ Proof. exact cursor_on_the_right_cell. Qed.
 
 (* non-vacuity: width 10, prompt "> ", 9 characters, cursor at 8: the row is exactly filled
    and the cursor belongs to the first cell of the next row *)
+(* the moves that end display.Engine.Refresh (no hint, no completion menu): from the end of
+   the line just written - row r0 + line_rows, any column - they put the terminal cursor on
+   row r0 + cursor_row, column cursor_col, the cell CoordinatesCursor computed (which
+   C04_cursor_on_the_right_cell shows is the cell of the buffer cursor), whenever the rows
+   of the frame and the row below them are on the screen *)
+Theorem C04_refresh_ends_on_the_cursor_cell : forall rows cols r0 c cursor_col cursor_row start_cols line_rows,
+  0 < cols -> 0 <= r0 -> 0 <= c < cols -> 0 <= cursor_row <= line_rows -> 0 <= cursor_col < cols -> 0 <= start_cols ->
+  r0 + line_rows + 1 < rows ->
+  fold_left (do_move rows cols) (refresh_tail_moves cols cursor_col cursor_row start_cols line_rows) (r0 + line_rows, c)
+  = (r0 + cursor_row, cursor_col).
+Proof. exact refresh_ends_on_the_cursor_cell. Qed.
+
 Example C04_example :
   snd (layout 4 10 [62; 32] [97; 98; 99; 100; 101; 102; 103; 104; 105] 8) = (1, 0) /\
   coordinates_cursor 10 [97; 98; 99; 100; 101; 102; 103; 104; 105] 8 2 = Ok (0, 1) /\
